@@ -39,11 +39,11 @@ FindingRec(e, what, f) ==
   LET s == StmtAt(e.tree, f.path) IN
   [id |-> e.id, mut |-> e.mut, what |-> what, phase |-> Phase(e), vkind |-> f.kind, kw |-> f.kw, site |-> PId(s),
    argkind |-> IF f.kind = "argument" THEN ArgKind(s.kw, ParentKwOf(e.tree, f.path)) ELSE "",
-   arg |-> IF f.kind = "argument" THEN s.arg ELSE "", path |-> f.path, err |-> e.err]
+   arg |-> IF f.kind = "argument" THEN s.arg ELSE "", path |-> f.path, err |-> e.err, named |-> e.named]
 EventRec(e, what) ==
   LET s == StmtAt(e.tree, e.errPath) IN
   [id |-> e.id, mut |-> e.mut, what |-> what, phase |-> Phase(e), vkind |-> "none", kw |-> "", site |-> IF e.atStmt THEN PId(s) ELSE "",
-   argkind |-> "", arg |-> "", path |-> e.errPath, err |-> e.err]
+   argkind |-> "", arg |-> "", path |-> e.errPath, err |-> e.err, named |-> e.named]
 Recs(e, x, what) == IF what = "invalid-accepted" THEN {FindingRec(e, what, f) : f \in x.bad} ELSE {EventRec(e, what)}
 
 TInit == l = 1 /\ nfail = 0 /\ cnt = [accept |-> 0, reject |-> 0, unjudged |-> 0]
